@@ -1,0 +1,6 @@
+//go:build !verif
+// +build !verif
+
+package fsloop
+
+func verifPoint(site string) {}
